@@ -239,8 +239,17 @@ func runCheck(verifRoot, repoRoot, id, tier string, seed int64, only string, noR
 			}
 		}
 	}
+	validated := 0
+	if exit == 0 && len(problems) == 0 && !noReplay {
+		var bad []string
+		validated, bad = e.validateSamples(results)
+		for _, b := range bad {
+			problems = append(problems, "native replay of a passing-path sample disagrees with the encoding: "+b)
+		}
+		fmt.Printf("[%s/%s] native validation: %d sampled passing-path models replayed against the real build, %d disagreements\n", id, tier, validated, len(bad))
+	}
 	wall := time.Since(t0).Seconds()
-	e.writeEvidence(results, tier, seed, wall, problems, violN)
+	e.writeEvidence(results, tier, seed, wall, problems, violN+validated)
 	if exit == 1 {
 		return 1
 	}
@@ -314,13 +323,31 @@ func firstLines(s string, n int) string {
 
 func (e *Engine) replayTestSource(pkgName string) string {
 	var b strings.Builder
-	b.WriteString("//go:build verif\n\npackage " + pkgName + "\n\nimport (\n\t\"os\"\n\t\"testing\"\n)\n\n")
+	nr := e.nativeRedir
+	b.WriteString("//go:build verif\n\npackage " + pkgName + "\n\nimport (\n\t\"fmt\"\n\t\"os\"\n\t\"path/filepath\"\n\t\"testing\"\n")
+	if nr != nil {
+		for ip, alias := range nr.imports {
+			fmt.Fprintf(&b, "\t%s %q\n", alias, ip)
+		}
+	}
+	b.WriteString(")\n\n")
+	if nr != nil && nr.initSrc != "" {
+		b.WriteString("func init() {\n" + nr.initSrc + "}\n\n")
+	}
 	b.WriteString("func TestVerifReplay(t *testing.T) {\n\tentries := map[string]func(){\n")
 	for _, ent := range e.cfg.Entries {
 		fmt.Fprintf(&b, "\t\t%q: %s,\n", ent.Func, ent.Func)
 	}
 	b.WriteString("\t}\n\tr := vLoad()\n\tf, ok := entries[r.Entry]\n\tif !ok {\n\t\tt.Fatalf(\"unknown entry %s\", r.Entry)\n\t}\n")
 	b.WriteString("\tf()\n\tos.Stdout.WriteString(\"VERIF-REPLAY: completed\\n\")\n}\n")
+	// several sampled passing-path models in one process
+	b.WriteString("\nfunc TestVerifReplaySamples(t *testing.T) {\n\tentries := map[string]func(){\n")
+	for _, ent := range e.cfg.Entries {
+		fmt.Fprintf(&b, "\t\t%q: %s,\n", ent.Func, ent.Func)
+	}
+	b.WriteString("\t}\n\tfiles, _ := filepath.Glob(filepath.Join(os.Getenv(\"VERIF_SAMPLE_DIR\"), \"*.json\"))\n")
+	b.WriteString("\tfor _, fpath := range files {\n\t\tr := vLoadFrom(fpath)\n\t\tfunc() {\n\t\t\tdefer func() {\n\t\t\t\tif p := recover(); p != nil {\n\t\t\t\t\tfmt.Printf(\"VERIF-SAMPLE %s panic %v\\n\", filepath.Base(fpath), p)\n\t\t\t\t}\n\t\t\t}()\n")
+	b.WriteString("\t\t\tentries[r.Entry]()\n\t\t\tfmt.Printf(\"VERIF-SAMPLE %s completed failed=%d infeasible=%v\\n\", filepath.Base(fpath), len(vFailed), vInfeasible)\n\t\t}()\n\t}\n}\n")
 	return b.String()
 }
 
@@ -337,6 +364,9 @@ func (e *Engine) nativeReplay(replayPath string, ent *EntryCfg, v *Violation) (b
 	os.WriteFile(testReal, []byte(e.replayTestSource(pkgName)), 0o644)
 	ov := map[string]map[string]string{"Replace": {}}
 	for virt, real := range e.overlayFiles {
+		ov["Replace"][virt] = real
+	}
+	for virt, real := range e.nativeRedir.files {
 		ov["Replace"][virt] = real
 	}
 	ov["Replace"][filepath.Join(pkgDir, "zz_verif_replay_test.go")] = testReal
@@ -533,7 +563,7 @@ func (e *Engine) writeEvidence(results []*EntryResult, tier string, seed int64, 
 			"known_findings_seen":           known,
 			"panic_paths":                   panicPaths,
 			"inconclusive":                  problems,
-			"explanation":                   "symbolic execution of the real functions (go/ssa of /repo's working tree + harness overlay); every vAssert is an SMT query pathcond ∧ ¬cond that must be unsat; states = explored path prefixes, transitions = forks; traces_validated_against_impl = counterexamples replayed natively",
+			"explanation":                   "symbolic execution of the real functions (go/ssa of /repo's working tree + harness overlay); every vAssert is an SMT query pathcond ∧ ¬cond that must be unsat; states = explored path prefixes, transitions = forks; traces_validated_against_impl = sampled passing-path models (and any counterexamples) replayed natively against the real build with agreeing assertion outcomes",
 		},
 		"assumptions": e.cfg.Assumptions,
 		"wall_s":      wall,
@@ -551,4 +581,69 @@ func max1(n int) int {
 		return 1
 	}
 	return n
+}
+
+// validateSamples replays sampled satisfying models of PASSING paths natively
+// (same harness, real compiled code). Every assertion must hold natively too; a
+// failing assertion or a panic is a disagreement between the encoding and the
+// implementation. Samples whose native run leaves the sampled path (an
+// assumption turns false, e.g. because Go picked another map order) are not
+// counted. Returns (validated, disagreements).
+func (e *Engine) validateSamples(results []*EntryResult) (int, []string) {
+	modDir := filepath.Join(e.repoRoot, e.cfg.Module)
+	pkgDir := filepath.Join(modDir, strings.TrimPrefix(e.cfg.Package, "./"))
+	pkgName, _ := goPackageName(pkgDir)
+	work := filepath.Join(e.verifRoot, ".work", fmt.Sprintf("%s-%d", e.cfg.Property, os.Getpid()))
+	sdir := filepath.Join(work, "samples")
+	os.MkdirAll(sdir, 0o755)
+	n := 0
+	for _, r := range results {
+		for i, smp := range r.Samples {
+			rf := map[string]interface{}{"property": e.cfg.Property, "entry": r.Entry.Func, "values": smp, "params": e.effectiveParams(r.Entry)}
+			writeJSON(filepath.Join(sdir, fmt.Sprintf("%s-%02d.json", r.Entry.Func, i)), rf)
+			n++
+		}
+	}
+	if n == 0 {
+		return 0, nil
+	}
+	testReal := filepath.Join(work, "zz_verif_replay_test.go")
+	os.WriteFile(testReal, []byte(e.replayTestSource(pkgName)), 0o644)
+	ov := map[string]map[string]string{"Replace": {}}
+	for virt, real := range e.overlayFiles {
+		ov["Replace"][virt] = real
+	}
+	for virt, real := range e.nativeRedir.files {
+		ov["Replace"][virt] = real
+	}
+	ov["Replace"][filepath.Join(pkgDir, "zz_verif_replay_test.go")] = testReal
+	ovPath := filepath.Join(work, "overlay.json")
+	writeJSON(ovPath, ov)
+	cmd := exec.Command("go", "test", "-tags", "verif", "-vet=off", "-count=1", "-v", "-run", "^TestVerifReplaySamples$", "-overlay", ovPath, e.cfg.Package)
+	cmd.Dir = modDir
+	cmd.Env = append(os.Environ(), "GOFLAGS=-mod=mod", "GOPROXY=off", "GOSUMDB=off", "GOTOOLCHAIN=local", "VERIF_SAMPLE_DIR="+sdir)
+	out, _ := cmd.CombinedOutput()
+	validated := 0
+	var bad []string
+	seen := 0
+	for _, line := range strings.Split(string(out), "\n") {
+		if !strings.HasPrefix(line, "VERIF-SAMPLE ") {
+			continue
+		}
+		seen++
+		switch {
+		case strings.Contains(line, " panic "):
+			bad = append(bad, line)
+		case strings.Contains(line, "infeasible=true"):
+			// left the sampled path natively: not comparable
+		case strings.Contains(line, "failed=0"):
+			validated++
+		default:
+			bad = append(bad, line)
+		}
+	}
+	if seen == 0 {
+		bad = append(bad, "native sample replay produced no result: "+firstLines(string(out), 15))
+	}
+	return validated, bad
 }
